@@ -4,6 +4,7 @@ import os
 import sys
 import time
 
+from . import tlc as _tlc
 from .tlc import BUILD, VERIF, MachineryError
 
 KNOWN = os.path.join(VERIF, "known_findings.json")
@@ -118,6 +119,8 @@ class Check:
         if self.exhaustive is not None:
             cov["exhaustive"] = self.exhaustive
         cov.update(self.extra)
+        # TLC runs that ended in an error of the run itself and were repeated (tlc.run): kept visible, never a verdict
+        cov["tlc_runs_repeated"] = [{k: r[k] for k in ("module", "workdir", "attempt", "workers", "rc", "error")} for r in _tlc.RETRIES]
         ev = {
             "property_id": self.prop,
             "tier": self.tier,
